@@ -2,6 +2,7 @@
 Shared pieces of the structural checks (C03, C11, C15, C08): case generation for
 harness/impl/struct_run.py, node coordinates in tube order, conversions.
 """
+from harness.core import safe_fraction
 import copy
 import math
 from fractions import Fraction
@@ -146,4 +147,4 @@ def refine(c, parts=2):
 
 
 def qfrac(x):
-    return Fraction(float(x))
+    return safe_fraction(x)
